@@ -169,7 +169,7 @@ CHECKS = {
         level="exploration",
         quick=NATIVE, thorough=NATIVE + [("fresh", 1.0, {"only": "fresh"})],
         rule="non-trivial = the two values really differ (some transient field was changed); distinct by (type, bytes)",
-        floors={"any": {"transient_values_do_not_influence_bytes": 5000, "transient_fields_decoded_to_default": 5000, "transient_constructor_refused": 500, "made_transient_versions_encodable": 500, "made_transient_after_earlier_steps_encodable": 100}},
+        floors={"any": {"transient_values_do_not_influence_bytes": 5000, "transient_fields_decoded_to_default": 5000, "transient_constructor_refused": 500, "made_transient_versions_encodable": 500, "made_transient_after_earlier_steps_encodable": 100, "transient_default_for_older_data": 500}},
     ),
     "C15": dict(
         claim="Held on N observed executions: every generated value of every subject type is written to Vec<u8>, BytesMut, serialize_to_bytes, serialize_to_byte_vec and a user-defined recording output — identical bytes — and SizeCalculator reports exactly their number; 80 000 (2 000 000 thorough) ordinary and hostile primitive read sequences run on SliceInput, OwnedInput and DeserializationContext must agree result by result (value, error class, panic) and report end of input at the same point.",
